@@ -245,6 +245,8 @@ def identical(st: State, a: Any, b: Any):
             return a == b
         if a.sort() == smt.Obj and b.sort() == smt.Obj:
             return a == b
+        if smt.is_int(a) and smt.is_int(b):
+            return a == b  # enum members / small ints: identity coincides with equality
     if isinstance(a, bool) or isinstance(b, bool):
         return values_equal(st, a, b)
     if isinstance(a, (PyClass, ClassVal, Builtin)) or isinstance(b, (PyClass, ClassVal, Builtin)):
